@@ -1,6 +1,11 @@
 /-
   C03 — decoders are safe and honest on arbitrary bytes.  Property theorems only
-  (helper lemmas: Lemmas/DecodeSafe.lean, Decode.lean, DecodeResume.lean, DecodeArrive.lean).
+  (helper lemmas: Lemmas/DecodeSafe.lean, Decode.lean, DecodeResume.lean, DecodeArrive.lean, DecodeSegs.lean,
+  DecodeCommand*.lean, DecodePeek.lean, DecodeDeliver.lean, DecodeFrames.lean; the last two build on the call
+  lemmas of C02: Lemmas/DecodeCall.lean, DecodeLiveCall.lean, CodedQueueDec.lean).
+  The storage of a call is the concatenation of the segments (`flat`): the theorems speak about indices into
+  that one buffer.  Segment cursors of the C code (`mpt_message_read`, the `dvec` walk) and the termination
+  of the C loops are tied to the model by the correspondence run (guards, sanitizers, alarm), not by proof.
   `decodeV v st segs peek` is the model of mpt_decode_cobs / _r / _zpe / _zpe_r (Impl/Decode.lean):
   `segs` = the iovec array as (address mod 16, bytes), `peek` = (sourcelen == 0).
 -/
@@ -9,6 +14,8 @@ import MptModel.Lemmas.DecodeArrive
 import MptModel.Lemmas.DecodeSegs
 import MptModel.Lemmas.DecodeCommandArrive
 import MptModel.Lemmas.DecodePeek
+import MptModel.Lemmas.DecodeCommandSafe
+import MptModel.Lemmas.DecodeFrames
 namespace Mpt.C03
 open Mpt.Cobs Mpt.Codec
 
@@ -114,6 +121,99 @@ theorem no_invention (v : Variant) (st : DecState) (segs : List Seg) (pre junk :
 
 example : dec .cobs [3, 0x61, 0] = none ∧ (decodeV .cobs {} [(0, [3, 0x61, 0, 0x62, 0])] false).ret = .err .MissingData := by decide
 example : dec .cobs [0] = none ∧ (decodeV .cobs {} [(0, [0, 2, 0x61, 0])] false).ret = .err .BadValue := by decide
+
+/-! ### the states the decoders reach -/
+
+/-- The set of decoder states with consistent offsets (`pos + len ≤ curr ≤ storage size`, a waiting message
+    is exactly the decoded data — this contains `WF`) is closed under every call, whatever it returns: the
+    states reached by resuming after any return code — 0, 1, MissingData, MissingBuffer, BadValue, … — are
+    all covered by `terminates` and `write_behind_read`. -/
+theorem state_closed (v : Variant) (st : DecState) (segs : List Seg) (peek : Bool)
+    (h : Bnd (total segs peek) st) : Bnd (total segs peek) (decodeV v st segs peek).st ∧ WF (decodeV v st segs peek).st :=
+  ⟨decodeV_bnd v st segs peek h, (decodeV_bnd v st segs peek h).msg⟩
+
+example : Bnd 4 ({} : DecState) := ⟨by decide, by decide, by simp⟩
+
+/-- A complete well-formed frame at the input position of a decoder between two messages is delivered, and
+    the message is the reference decoding, provided the head room in front of the input position exceeds
+    the frame body by the alignment margin; without that head room the only other answer is the request for
+    work area — never "wait for data", never "broken", never another message. -/
+theorem delivers (v : Variant) (st : DecState) (segs : List Seg) (pre junk msg : List Byte)
+    (hb : Bnd (flat segs).length st) (hf : Fresh st)
+    (hin : (flat segs).drop st.curr = pre ++ 0 :: junk) (hnz : ∀ x ∈ pre, x ≠ 0)
+    (hdec : dec v (pre ++ [0]) = some msg) :
+    (((decodeV v st segs false).ret = .val 1 ∧ (decodeV v st segs false).region = msg) ∨
+      (decodeV v st segs false).ret = .err .MissingBuffer) ∧
+    (st.pos + st.len + pre.length + 15 ≤ st.curr →
+      (decodeV v st segs false).ret = .val 1 ∧ (decodeV v st segs false).region = msg) := by
+  constructor
+  · rcases decodeV_accepts v st segs pre junk msg hb hf hin hnz hdec with ⟨a, b, _⟩ | a
+    · exact Or.inl ⟨a, b⟩
+    · exact Or.inr a
+  · intro hroom
+    obtain ⟨a, b, _⟩ := decodeV_delivers v st segs pre junk msg hb hf hin hnz hdec hroom
+    exact ⟨a, b⟩
+
+example : (decodeV .zpe {} [(0, [0xe0, 0])] false).ret = .err .MissingBuffer ∧
+    (decodeV .zpe { curr := 18 } [(0, List.replicate 18 7 ++ [0xe0, 0])] false).region = [0, 0] := by decide
+
+/-- After a delivery the decoder stands between two messages again (`Fresh`), its input position is exactly
+    behind the delimiter of the delivered frame, the unread input is untouched and the storage keeps its
+    size: the next call starts with the next frame. -/
+theorem after_delivery (v : Variant) (st : DecState) (segs : List Seg) (pre junk : List Byte)
+    (hb : Bnd (flat segs).length st) (hf : Fresh st)
+    (hin : (flat segs).drop st.curr = pre ++ 0 :: junk) (hnz : ∀ x ∈ pre, x ≠ 0)
+    (h1 : (decodeV v st segs false).ret = .val 1) :
+    Fresh (decodeV v st segs false).st ∧ (decodeV v st segs false).st.curr = st.curr + pre.length + 1 ∧
+    (decodeV v st segs false).store.drop (decodeV v st segs false).st.curr = junk ∧
+    (decodeV v st segs false).store.length = (flat segs).length ∧
+    dec v (pre ++ [0]) = some (decodeV v st segs false).region :=
+  decodeV_next v st segs pre junk hb hf hin hnz h1
+
+/-- A delimiter where a frame should start (leading or doubled delimiter) is answered with BadValue, exactly
+    that byte is consumed, nothing is stored, and the decoder stands between two messages again. -/
+theorem after_refusal (v : Variant) (st : DecState) (segs : List Seg) (tl : List Byte)
+    (hb : Bnd (flat segs).length st) (hf : Fresh st) (hin : (flat segs).drop st.curr = 0 :: tl) :
+    (decodeV v st segs false).ret = .err .BadValue ∧ Fresh (decodeV v st segs false).st ∧
+    (decodeV v st segs false).st.curr = st.curr + 1 ∧ (decodeV v st segs false).store = flat segs :=
+  decodeV_skip v st segs tl hb hf hin
+
+/-- Honesty for every frame of a stream, not only the first: calling the decoder again and again on the same
+    storage (`decodeAll`), the k-th delivered message is the reference decoding of the k-th frame — no frame
+    is skipped, merged or delivered twice, whatever follows the frames. -/
+theorem honest_frames (v : Variant) (a : Nat) (frames : List (List Byte)) (n : Nat) (st : DecState)
+    (store junk : List Byte) (hb : Bnd store.length st) (hf : Fresh st)
+    (hin : store.drop st.curr = (frames.map (· ++ [0])).flatten ++ junk) (hnz : ∀ p ∈ frames, ∀ x ∈ p, x ≠ 0)
+    (k : Nat) (hk : k ≤ frames.length) (hk2 : k ≤ (decodeAll v a n st store).length) :
+    ((decodeAll v a n st store).take k).map some = (frames.take k).map (fun p => dec v (p ++ [0])) :=
+  decodeAll_honest v a frames n st store junk hb hf hin hnz k hk hk2
+
+example : decodeAll .cobs 0 5 {} [2, 0x61, 0, 1, 0, 3, 0x62, 0x63, 0] = [[0x61], [], [0x62, 0x63]] := by decide
+
+/-! ### the command text decoder (`mpt_decode_command`) -/
+
+/-- Safety of the command decoder model for every state, every byte string, every segmentation and both
+    modes: it never faults; the storage keeps its size; every store hits an index inside the storage and in
+    front of the input position `curr` (the two header bytes — the already-consumed part), and only when a new
+    message starts; the loads happen at strictly increasing indices from `curr` on, inside the storage (so the
+    scan ends); every byte not stored to is unchanged; in peek mode, and while a message is continued, nothing
+    is stored at all. -/
+theorem cmd_safe (st : DecState) (segs : List Seg) (peek : Bool) :
+    (decodeCommand st segs peek).ret ≠ .oob ∧ (decodeCommand st segs peek).ret ≠ .clobber ∧
+    (decodeCommand st segs peek).store.length = total segs peek ∧
+    (∀ x ∈ (decodeCommand st segs peek).writes, x.1 < x.2 ∧ x.2 = st.curr ∧ x.1 < total segs peek) ∧
+    ((decodeCommand st segs peek).reads.Pairwise (· < ·) ∧
+      ∀ x ∈ (decodeCommand st segs peek).reads, st.curr ≤ x ∧ x < total segs peek) ∧
+    (∀ i, (∀ x ∈ (decodeCommand st segs peek).writes, x.1 ≠ i) →
+      (decodeCommand st segs peek).store[i]? = (flat (if peek then segs.take 1 else segs))[i]?) ∧
+    ((peek = true ∨ st.len - st.msg.getD 0 ≠ 0) →
+      (decodeCommand st segs peek).writes = [] ∧
+      (decodeCommand st segs peek).store = flat (if peek then segs.take 1 else segs)) :=
+  let h := decodeCommand_safe st segs peek
+  ⟨h.nofault.1, h.nofault.2, h.len, h.writes, h.reads, h.keep, h.pure⟩
+
+example : (decodeCommand { curr := 2 } [(0, [9, 9]), (0, [0x68, 0, 7])] false).writes = [(0, 2), (1, 2)] ∧
+    (decodeCommand { curr := 3 } [(0, [0x61, 0])] false).writes = [(1, 3)] := by decide
 
 /-- the size query (`source == NULL`, `sourcelen != 0`) changes nothing (there is no storage argument) -/
 theorem query_pure (v : Variant) (st : DecState) (n : Nat) (h : n ≠ 0) : (decodeQuery v st n).2 = st := by
